@@ -69,9 +69,13 @@ func template(t *rapid.T, label string, st *tstats) string {
 	var b strings.Builder
 	for i := 0; i < n; i++ {
 		v := rapid.SampledFrom(vars).Draw(t, "var")
-		switch k := rapid.IntRange(0, 39).Draw(t, label+"seg"); {
+		switch k := rapid.IntRange(0, 42).Draw(t, label+"seg"); {
+		case k >= 40:
+			// an expansion whose operand spans lines (a default holding a script, a message of two lines)
+			b.WriteString("${" + v + rapid.SampledFrom([]string{":-two\nlines}", "-a\n  b}", ":-${B}\n}", ":-\n}", ":-x\r\ny}", ":-$A\n$B}"}).Draw(t, "multiline"))
+			st.refs++
 		case k < 12:
-			b.WriteString(rapid.SampledFrom([]string{"echo ", "lit", "-", " ", "x/y", "1", "é", ":", "#", "{{matrix}}"}).Draw(t, "lit"))
+			b.WriteString(rapid.SampledFrom([]string{"echo ", "lit", "-", " ", "x/y", "1", "é", ":", "#", "{{matrix}}", "\n", "\r\n"}).Draw(t, "lit"))
 		case k < 16:
 			b.WriteString("$" + v)
 			st.refs++
